@@ -294,8 +294,11 @@ class Ctx:
         self.n = 0
 
     def fresh_dir(self, name="d"):
-        self.n += 1
-        d = os.path.join(self.root, "%s%d_%d" % (name, os.getpid(), self.n))
+        while True:
+            self.n += 1
+            d = os.path.join(self.root, "%s%d_%d" % (name, os.getpid(), self.n))
+            if not os.path.lexists(d):     # (a case that raised before its clean-up may have left one behind)
+                break
         os.makedirs(d)
         return d
 
